@@ -78,6 +78,10 @@ def run_case(case, ctx):
     else:
         opts['flat_template'] = bool(rng.random() < 0.25)       # a template without any signal (all zero / all NaN in the file)
     spec = random_spec(rng, **opts)
+    if case['seed'][-1] % 4 == 1:
+        spec.notes['template_scaling'] = [2.5, 0.5][case['seed'][-1] % 8 == 1]      # every unwhitened waveform carries this factor, once
+    if case['seed'][-1] % 3 == 1:
+        spec.notes['ks2_templates_ind'] = True
     thr_default = [None, None, 0.5, 0.3][int(rng.integers(0, 4))]
     if thr_default is not None:
         spec.notes['amplitude_threshold'] = thr_default      # model-level default set in params.py
@@ -109,6 +113,7 @@ def _report(ctx, desc, req, problems, base):
 
 def _dense(m, spec, desc, ctx, rng):
     nc = spec.n_channels
+    scaling = float(spec.notes.get('template_scaling') or 1.0)
     for t in range(spec.n_templates):
         for ncl in (4, 12):
             m.n_closest_channels = ncl
@@ -116,7 +121,7 @@ def _dense(m, spec, desc, ctx, rng):
                 for unw in (True, False, 0, np.False_, np.True_, 1)[:2 + 4 * (thr is None and ncl == 4)]:
                     if thr in (.3, 1) and not unw and ncl == 12:
                         continue
-                    U = rt.unwhitened(spec, t, unw)
+                    U = rt.unwhitened(spec, t, unw) * (scaling if unw else 1.0)
                     thr_eff = (desc['opts'].get('thr_default') or 0) if thr is None else thr
                     best, req_set, allowed = rt.dense_channel_sets(spec, U, thr_eff, ncl)
                     restricted = len(allowed) < nc
@@ -157,7 +162,7 @@ def _dense(m, spec, desc, ctx, rng):
             lst = rng.permutation(nc)[:k]
             as_list = bool(q == 1)
             unw = bool(q != 2)
-            U = rt.unwhitened(spec, t, unw)
+            U = rt.unwhitened(spec, t, unw) * (scaling if unw else 1.0)
             req = {'t': t, 'explicit': lst.tolist(), 'as_list': as_list, 'unwhiten': unw}
             base = {'storage': 'dense', 'explicit': True, 'as_list': as_list}
             ctx.count(1, key=hkey(tuple(desc['seed']), t, 'explicit', q), nontrivial=True,
@@ -208,9 +213,12 @@ def _dense(m, spec, desc, ctx, rng):
 
 
 def _sparse(m, spec, desc, ctx, rng):
+    scaling = float(spec.notes.get('template_scaling') or 1.0)
     for t in range(spec.n_templates):
         for unw in (True, False, True, False):       # second pass: after the caller wrote into the first records
             ch, W, amp = rt.sparse_record(spec, t, unw)
+            if unw:
+                W, amp = W * np.float32(scaling), amp * np.float32(scaling)
             dropped = len(ch) < spec.templates.shape[2]
             req = {'t': t, 'unwhiten': unw, 'sparse': True}
             base = {'storage': 'sparse', 'explicit': False}
